@@ -56,7 +56,8 @@ def gen_growth(rng, prefix, count, runs, sums=0.0, readers=0):
         for t in range(readers):
             ths.append(["s"] * rng.choice([2, 3, 4]))
         words = [rng.choice([1, 2, 3, 1, 2]) for _ in range(120)]
-        out.append(conc.Scn("%s%d" % (prefix, i), kind, words, ths, "rand %d %d" % (runs, rng.randint(1, 1 << 30)),
+        m = ("rand %d %d" % (runs, rng.randint(1, 1 << 30))) if i % 2 == 0 else ("pct %d %d %d" % (runs, rng.randint(1, 1 << 30), rng.choice([2, 3, 5])))
+        out.append(conc.Scn("%s%d" % (prefix, i), kind, words, ths, m,
                             {"maxcells": rng.choice([4, 8, 8]), "maxsteps": 20000}))
     return out
 
@@ -116,6 +117,21 @@ def gen_c16(tier, rng):
             ths.append(th)
         o = {"maxcells": rng.choice([2, 4, 8])} if kind in ("jdkadd", "jdkf") else {}
         s.append(conc.Scn("p%d" % i, kind, rnd_words(rng, 80), ths, "rand %d %d" % (scale(tier, 150, 1500), rng.randint(1, 1 << 30)), o))
+    # grow under contention / Store / grow again / read: stale cells must not come back
+    for i in range(scale(tier, 16, 120)):
+        kind = ["jdkadd", "jdkf"][i % 2]
+        used = []
+        nt = rng.choice([4, 5])
+        ths = []
+        for t in range(nt):
+            th = [upd(rng, used, kind) for _ in range(rng.choice([4, 5, 6]))] + ["/"]
+            th += (["w%d" % rng.choice([0, 5, 77]), "s"] if t == 0 else []) + ["/"]
+            th += [upd(rng, used, kind) for _ in range(rng.choice([4, 5, 6]))] + ["/"]
+            th += (["s", "q", "s"] if t == 0 else [])
+            ths.append(th)
+        words = [rng.choice([1, 2, 3, 1, 2]) for _ in range(160)]
+        m = ("rand %d %d" % (scale(tier, 300, 3000), rng.randint(1, 1 << 30))) if i % 3 else ("pct %d %d %d" % (scale(tier, 300, 3000), rng.randint(1, 1 << 30), 3))
+        s.append(conc.Scn("g%d" % i, kind, words, ths, m, {"maxcells": rng.choice([4, 8]), "maxsteps": 30000}))
     return s
 
 def gen_c19_adder(tier, rng):
